@@ -285,6 +285,9 @@ func unevaluated(src string) bool {
 	// ternaries and short-circuit operators also skip evaluation
 	tagStart := strings.LastIndex(pre, "{")
 	inExpr := pre[tagStart:]
+	if end := strings.Index(src[i:], "%}"); end >= 0 && strings.Contains(src[i:i+end], "ignore missing") {
+		return true // a missing template under `ignore missing` is the documented tolerance
+	}
 	return depth > 0 || strings.ContainsAny(inExpr, "?") || strings.Contains(inExpr, " and ") || strings.Contains(inExpr, " or ") || strings.Contains(inExpr, "ignore missing")
 }
 
